@@ -101,7 +101,11 @@ func (f *fetcher) handleUpstream200(req *http.Request, resp *http.Response, key 
 func (f *fetcher) handleUpstream416(req *http.Request, resp *http.Response, key cache.CacheKey, clientHd *headers.HeaderDirectives, noRetry bool) (cached *cache.Entry[cachedRequestInfo], err error) {
 	slog.Debug("Upstream responded with 416 Range Not Satisfiable, retrying without Range header...", "url", req.URL)
 
-	if noRetry {
+	// Only a request that carried a Range and can be repeated is retried: one without a Range gains
+	// nothing, and the body of a POST or PUT is spent - sending it again would hand the origin an
+	// empty request. Everything else gets the origin's 416 as it is.
+	repeatable := req.Method == http.MethodGet || req.Method == http.MethodHead
+	if noRetry || !repeatable || !clientHd.Range.IsPresent() {
 		slog.Debug("Not retrying 416 Range Not Satisfiable. Returning as is.", "url", req.URL)
 		return nil, nil
 	}
